@@ -111,6 +111,66 @@ def h_ste(which: str, fkey: str, rank: int):
     return h
 
 
+SEQ = [(4, 3, "stochastic", 0), (4, 3, "stochastic", 1), (4, 3, "nearest", 0), (4, 3, "stochastic", 0), (5, 2, "stochastic", 2), (4, 3, "stochastic", 1)]
+
+
+def h_ste_sequence(which: str):
+    """several formats sharing exponent/mantissa bits but differing in rounding mode / random-bit count, used one after
+    the other in one process: each call must use ITS format (no state carried between formats)"""
+
+    def h(c: Ctx) -> None:
+        mk = fo.SymMk(c)
+        info = {"which": which, "sequence": True}
+        with Session(), QuantSession():
+            x = mk.tensor("x", fo._lead(mk, 2), torch.float32)
+            for i, label in enumerate(SEQ):
+                fmt = mkfmt(label)
+                x.grad = None
+                y = getattr(fmt, which)(x)
+                G = STensor.leaf("G", y.shape, y.dtype)
+                y.backward(G)
+                if which == "quantise_fwd":
+                    _eq_lc(c, f"call {i} {label}: forward value = Q of THIS format", y.lc, q_term(x, fmt_label(fmt)), {**info, "claim": "seq", "index": i})
+                    _eq_lc(c, f"call {i} {label}: gradient passes through", x.grad, G.lc, {**info, "claim": "seq", "index": i})
+                else:
+                    _eq_lc(c, f"call {i} {label}: forward value = x", y.lc, x.lc, {**info, "claim": "seq", "index": i})
+                    _eq_lc(c, f"call {i} {label}: gradient = Q of THIS format", x.grad, q_term(G, fmt_label(fmt)), {**info, "claim": "seq", "index": i})
+
+    return h
+
+
+def replay_ste_sequence(obname: str, model: Dict[str, Any], info: Any) -> Tuple[bool, str]:
+    """concrete: pin the random source; after the sequence each format must behave as it does in a fresh state"""
+    which = info["which"]
+    orig = torch.randint
+    seen: List[Tuple[int, int]] = []
+
+    def rec(low: Any, high: Any, *a: Any, **k: Any) -> torch.Tensor:
+        seen.append((low, high))
+        return orig(low, high, *a, **k)
+
+    bad = []
+    x = torch.randn(64, requires_grad=True)
+    torch.randint = rec  # type: ignore[assignment]
+    try:
+        for i, label in enumerate(SEQ):
+            fmt = mkfmt(label)
+            seen.clear()
+            y = getattr(fmt, which)(x)
+            (gx,) = torch.autograd.grad(y, x, torch.randn(64))
+            want = [] if label[2] == "nearest" else [(0, 2 ** fmt.srbits)]
+            if seen != want:
+                bad.append(f"call {i} with {label}: random draws {seen}, its own format needs {want}")
+    finally:
+        torch.randint = orig  # type: ignore[assignment]
+    return bool(bad), f"{which} sequence: " + "; ".join(bad or ["each call used its own format"])
+
+
+def task_ste_sequence(which: str) -> List[Dict[str, Any]]:
+    torch.set_num_threads(1)
+    return discharge("C15", f"{which}[sequence of formats]", h_ste_sequence(which), replay_ste_sequence, 20, base_info={"which": which, "sequence": True})
+
+
 def replay_ste(obname: str, model: Dict[str, Any], info: Any) -> Tuple[bool, str]:
     label = FORMATS[info["format"]][0]
     fmt = mkfmt((label[0], label[1], "nearest", 0))  # deterministic for the replay
@@ -336,6 +396,7 @@ def run(rep: Report, only: str = "") -> None:
         for fkey in FORMATS:
             for rank in ((0, 1, 2, 3) if thorough else (1, 3)):
                 tasks.append((task_ste, (which, fkey, rank)))
+    tasks += [(task_ste_sequence, ("quantise_fwd",)), (task_ste_sequence, ("quantise_bwd",))]
     # lossless format: bit-vector proof over every float32 (engine B) for nearest and for the stochastic default
     for claim in ("fixed", "no_error", "shape_dtype", "unmodified"):
         tasks.append((bits_task, (8, 23, "nearest", 0, claim, 300)))
@@ -371,6 +432,8 @@ def replay(data: Dict[str, Any]) -> Tuple[bool, str]:
         v = [x for x in r if x.get("type") == "violation"]
         return bool(v), str(v or "ok")
     info = data.get("info") or {}
+    if info.get("sequence"):
+        return replay_ste_sequence(data["obligation"], data["model"], info)
     if "which" in info:
         return replay_ste(data["obligation"], data["model"], info)
     if "spec" in info:
